@@ -441,7 +441,7 @@ def bitstream_bounds(F, S):
     c = [f for f in F.fns(BS + "::BitStreamReader") if not f.d.get("copy_ctor") and not f.d.get("implicit")]
     inits = {i.get("field"): c[0].term(i["init"]) for i in c[0].d.get("inits", []) if "field" in i}
     inst = BS + "#bit-size"
-    if inits.get("m_BufferBitSize") == ("op", "<<", P(c[0], 1), ("const", 3)):
+    if inits.get("m_BufferBitSize") in (("op", "<<", P(c[0], 1), ("const", 3)), ("op", "*", P(c[0], 1), ("const", 8)), ("op", "*", ("const", 8), P(c[0], 1))):
         out.append(ok("R-ACCT", inst, c[0].loc(c[0].body), c[0].qn, "the bit limit is 8 x the byte size of the caller's buffer", "bufferSize << 3", nontrivial=False))
     else:
         out.append(bad("R-ACCT", inst, c[0].loc(c[0].body), c[0].qn, "the bit limit is 8 x the byte size of the caller's buffer", fmt_term(inits.get("m_BufferBitSize", ("?",)))))
